@@ -189,15 +189,15 @@ def makeNodeAgree (var hi lo : H α) : Bool :=
 
 theorem makeNodeRc_agree (mk : α → α → α → Option α) (rc : Rc α) (var hi lo : H α)
     (h : makeNodeAgree var hi lo = true) :
-    makeNodeRc Cfg.repo mk rc var hi lo = makeNodeRc Cfg.fixed mk rc var hi lo := by
+    makeNodeRc Cfg.beforeFix mk rc var hi lo = makeNodeRc Cfg.current mk rc var hi lo := by
   cases var <;> cases hi <;> cases lo <;>
-    simp_all [makeNodeAgree, makeNodeRc, Cfg.repo, Cfg.fixed, H.get, H.isValid, Rc.ret]
+    simp_all [makeNodeAgree, makeNodeRc, Cfg.beforeFix, Cfg.current, H.get, H.isValid, Rc.ret]
 
 /-- the repaired `make_node` keeps the invariant -/
 theorem inv_make_node (mk : α → α → α → Option α) (s : State α) (var hi lo : H α)
     (ho : s.led.owns hi = true) (hl : (s.led.release hi).owns lo = true) (h : Inv s) :
-    Inv ⟨(makeNodeRc Cfg.fixed mk s.rc var hi lo).1,
-         ((s.led.release hi).release lo).acquire (makeNodeRc Cfg.fixed mk s.rc var hi lo).2⟩ := by
+    Inv ⟨(makeNodeRc Cfg.current mk s.rc var hi lo).1,
+         ((s.led.release hi).release lo).acquire (makeNodeRc Cfg.current mk s.rc var hi lo).2⟩ := by
   -- release `hi`
   have h1 : Inv ⟨(match hi with | .valid x => s.rc.dropFunction x | .invalid => s.rc), s.led.release hi⟩ := by
     cases hi with
@@ -213,7 +213,7 @@ theorem inv_make_node (mk : α → α → α → Option α) (s : State α) (var 
     | valid y => exact inv_drop _ (s.led.release hi) y (owns_valid.mp hl) h1
   have h3 := inv_ret ⟨_, (s.led.release hi).release lo⟩
     (var.get.bind fun v => hi.get.bind fun a => lo.get.bind fun b => mk v a b) h2
-  simp only [makeNodeRc, Cfg.fixed, if_true]
+  simp only [makeNodeRc, Cfg.current, if_true]
   exact h3
 
 end OxiddModel.Ffi
